@@ -15,21 +15,23 @@ GLYPH = [("┌", "┐", "└", "┘")]
 GLYPH_ROUND = [("╭", "╮", "╰", "╯")]
 
 
-def make_box(w, h, corners, hor, ver_rows, inner=None):
-    """ver_rows: list of side characters per interior row"""
+def make_box(w, h, corners, hor, ver_rows, inner=None, hor_bottom=None):
+    """ver_rows: list of side characters per interior row; hor / hor_bottom: top and bottom edge characters"""
     tl, tr, bl, br = corners
+    hor_bottom = hor if hor_bottom is None else hor_bottom
     rows = [tl + hor * w + tr]
     for i in range(h):
         body = " " * w
         if inner and i < len(inner):
             body = (inner[i] + " " * w)[:w]
         rows.append(ver_rows[i] + body + ver_rows[i])
-    rows.append(bl + hor * w + br)
+    rows.append(bl + hor_bottom * w + br)
     return "\n".join(rows)
 
 
 class Check(PropertyCheck):
     id = "C05"
+    thorough_mult = 3
     lean_modules = ["Svgbob.Properties.C05"]
     assumptions = [
         "whole-pipeline model tied to the implementation end to end (bytes) and at the endorsement stage",
@@ -62,7 +64,11 @@ class Check(PropertyCheck):
             else:
                 corners, rounded, hor, ver = GLYPH_ROUND[0], True, "─", "│"
             ver_rows = [ver] * h
-            dashed = hor == "~" and w > 0
+            hor_bottom = hor
+            if hor in "-~" and self.rng.chance(1, 3):
+                # only one of the two horizontal edges dashed
+                hor, hor_bottom = self.rng.choice([("~", "-"), ("-", "~")])
+            dashed = "~" in (hor, hor_bottom) and w > 0
             if ver == "|" and h >= 3 and self.rng.chance(1, 3):
                 d = self.rng.choice(":!")
                 a = self.rng.range(0, h - 2)
@@ -73,7 +79,7 @@ class Check(PropertyCheck):
             if w >= 5 and h >= 1 and self.rng.chance(1, 2):
                 inner = [" ab" + ("c" * self.rng.below(w - 4))]
             k, n = self.rng.below(12), self.rng.below(6)
-            out.append((make_box(w, h, corners, hor, ver_rows, inner), w, h, rounded, dashed, k, n, inner is not None))
+            out.append((make_box(w, h, corners, hor, ver_rows, inner, hor_bottom), w, h, rounded, dashed, k, n, inner is not None))
         return out
 
     def random_grids(self, n):
